@@ -259,7 +259,7 @@ def gen_cases(tier, seed, search=False):
                               allow_include=crng.random() < 0.92, mem=mem, rich=True,
                               sheet_pattern=crng.choice([None, None, "(in|set)_"]))
         case["gen"] = {"graph": sorted(es), "n": n}
-        yield idx, case
+        yield idx, shift_columns(crng, case)
         idx += 1
     n_rand = 3500 if (thorough or search) else 330
     for k in range(n_rand):
@@ -267,8 +267,21 @@ def gen_cases(tier, seed, search=False):
         case = c16.random_case(crng, xlsx_share=0.4)
         if crng.random() < 0.6:
             case["tracker"] = "collecting"
-        yield idx, case
+        yield idx, shift_columns(crng, case)
         idx += 1
+
+
+def shift_columns(crng, case):
+    """some workbook sheets get their content written from column B or C on: read from column A, every row of
+    such a sheet starts with an empty cell, so it holds no table, directive or metadata block at all"""
+    for f in case["files"]:
+        if f["kind"] != "xlsx":
+            continue
+        for sh in f["sheets"]:
+            if crng.random() < 0.12:
+                sh["col_offset"] = crng.choice([1, 2])
+                sh["truth"] = []
+    return case
 
 
 # ------------------------------------------------------------------------------------------------ run / replay
@@ -334,10 +347,22 @@ def run(tier, seed, model_ok, translator, search=False):
             out.count("status:" + (st if isinstance(st, str) else st["exc"]))
             depth = max([len(o["history"]) for o in res["impl"]["out"] if o["history"]] or [0])
             out.count("max_history_depth:%d" % depth)
-            for f in case["files"]:
+            for f, fid in zip(case["files"], res["m"].file_id):
                 out.count("filekind:" + f["kind"])
                 if f["kind"] == "xlsx":
                     out.count("xlsx_sheets:%d" % len(f["sheets"]))
+                    for sh, osh in zip(f["sheets"], res["m"].rows.get(fid, [])):
+                        if sh.get("col_offset"):
+                            out.count("xlsx_sheet_first_column_not_A")
+                        lead = 0
+                        for r in sh["rows"]:
+                            if any(c is not None and c != "" for c in r):
+                                break
+                            lead += 1
+                        if lead and lead < len(sh["rows"]):
+                            out.count("xlsx_sheet_leading_empty_rows:%d" % lead)
+                            if any(b["ty"] == "TABLE" for b in sh["truth"]):
+                                out.count("xlsx_tables_below_leading_empty_rows")
             if model_ok and not search:
                 ops += [res["load_op"], res["tree_op"]]
                 pend.append((case, res))
